@@ -40,8 +40,23 @@ def ty_range(ty):
 
 
 class Iter:
-    def __init__(self, items, pos=0):
+    def __init__(self, items, pos=0, anywhere=False):
         self.items, self.pos = list(items), pos
+        self.anywhere = anywhere          # inside an abstracted loop: somewhere in the sequence, not known where
+
+
+def _join_vals(vals):
+    """least upper bound of element values of a finite sequence (integers to a range, pairs component-wise)"""
+    vals = [TOP if v is OPAQUE else v for v in vals]
+    if not vals:
+        return TOP
+    if all(isinstance(v, (int, Rng)) and not isinstance(v, bool) for v in vals):
+        lo = min(v if isinstance(v, int) else v.lo for v in vals)
+        hi = max(v if isinstance(v, int) else v.hi for v in vals)
+        return lo if lo == hi else Rng(lo, hi)
+    if all(isinstance(v, Tup) and len(v.items) == len(vals[0].items) for v in vals):
+        return Tup([_join_vals([v.items[i] for v in vals]) for i in range(len(vals[0].items))])
+    return TOP
 
 
 OPAQUE = ("elem",)
@@ -206,6 +221,11 @@ class RangeDomain:
         return Rng(*r) if r else TOP
 
     def havoc(self, ex, fr, l):
+        cur = fr.env.get(l)
+        if isinstance(cur, Iter):
+            # an iterator over a finite known sequence, advanced inside a loop that is analysed abstractly: it stands somewhere in
+            # that sequence — whatever it yields next is one of the sequence's elements
+            return Iter(cur.items, 0, anywhere=True)
         r = ty_range(fr.body.locals[l]["ty"])
         return Rng(*r) if r else TOP
 
@@ -428,6 +448,14 @@ class RangeDomain:
         if n in ("enumerate", "take", "skip", "zip", "map", "rev") and a:
             # literal ranges used directly as iterators
             a = [Iter(range(x.fields[0], x.fields[1])) if isinstance(x, Adt) and x.name.endswith("ops::Range") and len(x.fields) == 2 and all(isinstance(y, int) for y in x.fields) else x for x in a]
+        if n in ("into_iter", "rev") and len(a) == 1 and isinstance(a[0], Adt) and a[0].name.endswith("ops::Range") and len(a[0].fields) == 2 \
+                and isinstance(a[0].fields[0], (int, Rng)) and isinstance(a[0].fields[1], (int, Rng)) and not all(isinstance(x, int) for x in a[0].fields):
+            # a range whose bounds are themselves only known as intervals (`0..bits`): whatever it yields lies between them
+            lo = a[0].fields[0] if isinstance(a[0].fields[0], int) else a[0].fields[0].lo
+            hi = a[0].fields[1] if isinstance(a[0].fields[1], int) else a[0].fields[1].hi
+            return Iter([lo if lo == hi - 1 else Rng(lo, hi - 1)] if hi > lo else [], 0, anywhere=True)
+        if n in ("into_iter", "rev") and len(a) == 1 and isinstance(a[0], Iter) and a[0].anywhere:
+            return a[0]
         if n in ("into_iter",) and len(a) == 1:
             if isinstance(a[0], Iter):
                 return a[0]
@@ -443,6 +471,8 @@ class RangeDomain:
         if n in ("iter", "iter_mut") and len(a) == 1:
             if isinstance(a[0], Tup) and n == "iter" and a[0].items and all(isinstance(x, Adt) and isinstance(x.variant, str) and x.name in self.F.adts for x in a[0].items):
                 return Iter(list(a[0].items))          # a literal table of a crate-local enum: its entries as they are (the interpreter loop over it runs out)
+            if isinstance(a[0], Tup) and n == "iter" and a[0].items and all(isinstance(x, (int, Rng)) and not isinstance(x, bool) for x in a[0].items):
+                return Iter(list(a[0].items))          # integers (limbs): the elements with the ranges they have
             if isinstance(a[0], Tup):
                 return Iter([OPAQUE] * len(a[0].items))
             L = self.slice_len(ex, fr, args[0], term, 0)
@@ -487,6 +517,10 @@ class RangeDomain:
                     rs = sub.run(cb, [a[-1], acc, x] if n == "fold" else [a[-1], x])
                     acc = rs[0][0] if len(rs) == 1 else TOP
                 return acc if n == "fold" else Tup([])
+        if n == "next" and len(a) == 1 and isinstance(a[0], Iter) and a[0].anywhere:
+            if not a[0].items:
+                return Adt("core::option::Option", "None", [])
+            return Adt("core::option::Option", ("?", ("next?", fr.body.path, term["span"].get("line")), {0: "None", 1: "Some"}), [_join_vals(a[0].items)])
         if n == "next" and len(a) == 1 and isinstance(a[0], Iter):
             it = a[0]
             if it.pos < len(it.items):
@@ -561,7 +595,51 @@ class RangeDomain:
                     mm = re.search(r"BigInt<(\d+)>", fty)
                     if mm:
                         return Tup([TOP] * int(mm.group(1)))
+        # an integer-valued crate function that is not analysed in place (it takes more than integers): the range of what it can
+        # return for any input — its body run once on type-shaped unknowns, the returned integers joined
+        cb = self.F.bodies.get(d)
+        if cb is not None and fr is not None and cb.rec["kind"] in ("Fn", "AssocFn") and ty_range((cb.rec.get("output") or "").strip()) and (cb.rec.get("output") or "").strip() != "bool" \
+                and not ex.inline(d) and not any("&mut" in (x or "") for x in (cb.rec.get("inputs") or [])) and not cb.rec.get("requires_mono"):
+            r = self.return_range(cb)
+            if r is not None:
+                return r
         return NotImplemented
+
+    def return_range(self, cb):
+        cache = self.__dict__.setdefault("_ret_ranges", {})
+        p = cb.rec["path"]
+        if p in cache:
+            return cache[p]
+        cache[p] = None          # (recursion: unknown)
+        try:
+            from .roles import int_helper_paths
+            ih = int_helper_paths(self.F)
+            sub_dom = RangeDomain(self.F)
+            sub_dom.root = p
+            sub = AbsExec(self.F, sub_dom, inline=lambda d: d in ih, max_steps=200000, max_paths=2000)
+            args = []
+            for ty in cb.rec.get("inputs") or []:
+                ty = ty.strip()
+                r = ty_range(ty)
+                if r:
+                    args.append(Rng(*r))
+                elif ty.startswith("&"):
+                    hf = Frame(cb, [])
+                    hf.env[0] = shape_value(self.F, ty.lstrip("&").strip())
+                    args.append(Ref(hf, 0))
+                else:
+                    args.append(shape_value(self.F, ty))
+            rs = sub.run(cb, args)
+            vals = [v for v, _ in rs]
+            if vals and all(isinstance(v, (int, Rng)) and not isinstance(v, bool) for v in vals):
+                lo = min(v if isinstance(v, int) else v.lo for v in vals)
+                hi = max(v if isinstance(v, int) else v.hi for v in vals)
+                tr = ty_range((cb.rec.get("output") or "").strip())
+                if tr[0] <= lo and hi <= tr[1]:
+                    cache[p] = lo if lo == hi else Rng(lo, hi)
+        except Exception:
+            cache[p] = None
+        return cache[p]
 
     def slice_len(self, ex, fr, arg, term, i):
         v = deref_value(ex, arg)
